@@ -9,7 +9,14 @@
 (*   r.matches  the returned bytes were found in the content of the file,  *)
 (*              at a unit-aligned position (an empty result matches);      *)
 (*              for readinto also: the rest of the buffer is untouched     *)
-(*   r.start    that position (units)                                      *)
+(*   r.start    that position (units): the first one; r.alts (optional) =  *)
+(*              the other unit-aligned positions where the same bytes are  *)
+(*              found (a boot info table is mostly zero bytes: equal bytes *)
+(*              at several positions are the same result)                  *)
+(*   r.omatches, r.ostart (optional; files with a boot info table only, when *)
+(*              the bytes are NOT bytes of the file): the bytes are found  *)
+(*              in the content the file was ADDED with (no table laid over *)
+(*              it), at that unit-aligned position                         *)
 (*   r.phit, r.pstart, r.pmatch   when they were not found as a whole: the *)
 (*              unit-aligned position where their first unit is found and  *)
 (*              how many leading units agree with the content from there   *)
@@ -39,12 +46,19 @@
 (*   ReadIntoAdvances           readinto moves the offset by its result    *)
 (*   SeekSemantics              result / refusal of seek as documented     *)
 (*   ExtractExact               whole-file extraction returns the content  *)
+(*                              (and NeverBeyondEnd: not more bytes than   *)
+(*                              the file has)                              *)
 (*   ClosedRefused              calls on a closed stream are refused       *)
 (*   UndocumentedException      an exception class that is not documented  *)
 (*   OpenOk, CloseOk, QueryOk   open / close / listing must succeed        *)
 (* "after" names what happened since the stream was last positioned (Open  *)
 (* or an accepted Seek): own ReadInto, Extract, I/O on another stream;     *)
-(* "cause" summarises it: "interference" | "readinto" | "none".            *)
+(* "cause" summarises it: "interference" | "readinto" | "none"; and        *)
+(* "no-boot-info-table": a reader of a file of TableFiles returned exactly *)
+(* the requested slice of the content the file was added with, i.e. the    *)
+(* table is not laid over what this reader returns.                        *)
+(* Every DIAG line also says what kind of file the call addressed          *)
+(* ("table" | "plain" | "-").                                              *)
 (***************************************************************************)
 EXTENDS Stream, Json, IOUtils, TLCExt
 
@@ -54,6 +68,7 @@ CONSTANT Resync        \* TRUE: continue from the implementation's offsets after
 Tab == INSTANCE StreamTables
 TFiles == Tab!TabFiles
 TLenOf == Tab!TabLenOf
+TTableFiles == Tab!TabTableFiles
 TSids  == {1, 2}
 TNoSizes(L) == {}      \* the alphabet of Stream is not used here: the actions are the logged ones
 TNone  == {}
@@ -82,18 +97,28 @@ OtherKind(a) == CASE a.a = "Open" -> "OtherOpen"
                   [] a.a = "Extract" -> "Extract"
                   [] OTHER -> a.a
 
+Has(r, k) == k \in DOMAIN r
+\* the returned bytes are the bytes at unit position p of the file
+StartIs(r, p) == r.start = p \/ (Has(r, "alts") /\ \E i \in 1..Len(r.alts) : r.alts[i] = p)
+\* ... they are not, but they are the n units at position p of what the file was added with
+RawSlice(f, r, p, n) == /\ f \in TableFiles /\ Has(r, "omatches") /\ r.omatches /\ ~r.matches
+                        /\ r.lenr = 0 /\ r.lenu = n /\ r.ostart = p
+NoTable(c, af) == [clause |-> c, after |-> af, cause |-> "no-boot-info-table"]
+
 ReadFails(S, a, r, m) ==
     LET s    == a.sid
         off  == S.streams[s].off
         av   == Avail(LenOf[S.streams[s].file], off)
         ok   == /\ r.matches /\ r.lenr = 0 /\ r.lenu = m.exp.len
-                /\ (r.lenu > 0 => r.start = m.exp.start)
+                /\ (r.lenu > 0 => StartIs(r, m.exp.start))
+        raw  == r.out = "ok" /\ RawSlice(S.streams[s].file, r, m.exp.start, m.exp.len)
         \* more bytes than are left, or bytes that run through the end of the file and go on
         more == \/ r.lenu > av \/ (r.lenu = av /\ r.lenr > 0)
                 \/ (/\ ~r.matches /\ r.phit /\ r.pstart + r.pmatch = LenOf[S.streams[s].file]
                     /\ (r.lenu > r.pmatch \/ r.lenr > 0))
         name == IF since[s] \cap Interferers # {} THEN "NoInterference" ELSE "ReadReturnsRequestedSlice"
     IN IF r.out = "exc" THEN Raised(r, name, After(s))
+       ELSE IF raw THEN {NoTable("ReadReturnsRequestedSlice", After(s))}
        ELSE (IF ok THEN {} ELSE {F(name, After(s))})
             \cup (IF more THEN {F("NeverBeyondEnd", After(s))} ELSE {})
 
@@ -118,13 +143,22 @@ CallFails(S, a, r, m) ==
       [] a.a = "List"  -> IF r.out = "exc" THEN Raised(r, "QueryOk", {"none"}) ELSE {}
       [] a.a = "Extract" ->
            IF r.out = "exc" THEN Raised(r, "ExtractExact", {"none"})
-           ELSE IF /\ r.matches /\ r.lenr = 0 /\ r.lenu = m.exp.len
-                   /\ (r.lenu > 0 => r.start = 0) THEN {} ELSE {F("ExtractExact", {"none"})}
+           ELSE IF RawSlice(a.file, r, 0, m.exp.len) THEN {NoTable("ExtractExact", {"none"})}
+           ELSE (IF /\ r.matches /\ r.lenr = 0 /\ r.lenu = m.exp.len
+                    /\ (r.lenu > 0 => StartIs(r, 0)) THEN {} ELSE {F("ExtractExact", {"none"})})
+                \cup (IF r.lenu > m.exp.len \/ (r.lenu = m.exp.len /\ r.lenr > 0)
+                      THEN {F("NeverBeyondEnd", {"none"})} ELSE {})
 
 \* the successor the model demands (S2), given the accepted alternatives
 Succ(S, a, r, m) == IF Clamped(a, r, m) THEN [S EXCEPT !.streams[a.sid].off = 0] ELSE m.S
 
 Range(q) == {q[i] : i \in 1..Len(q)}
+
+\* the file a logged call addresses
+FileOf(S, a) == IF a.a \in {"Open", "Extract"} THEN a.file
+                ELSE IF IsStreamAct(a) /\ a.sid \in Sids THEN S.streams[a.sid].file ELSE NoFile
+KindOf(S, a) == LET f == FileOf(S, a) IN
+                IF f \in TableFiles THEN "table" ELSE IF f \in Files THEN "plain" ELSE "-"
 
 \* tell() of every open stream right after the call.  For the stream that read, the offset
 \* must have moved by what was really returned (whether THAT was right is ReadFails' business)
@@ -178,7 +212,8 @@ TNext ==
                ELSE \E S2 \in {Succ(Cur, e.a, e.r, m)} :
                     \E fl \in {CallFails(Cur, e.a, e.r, m) \cup TellFails(Cur, S2, e.a, e.r)} :
                     /\ (fl # {} => PrintT(<<"DIAG", ToJson([tid |-> tr.id, step |-> l, act |-> e.a.a,
-                                                            fails |-> fl, exc |-> e.r.exc])>>))
+                                                            fails |-> fl, exc |-> e.r.exc,
+                                                            kind |-> KindOf(Cur, e.a)])>>))
                     /\ fpos' = S2.fpos
                     /\ streams' = ResyncedStreams(S2, e.r)
                     /\ last' = [a |-> e.a, exp |-> m.exp, pre |-> PreOff(Cur, e.a)]
